@@ -12,6 +12,8 @@ from .. import evalgen as G
 from .. import leanio
 from .. import tagpool as TP
 from .. import c08_live as L
+from .. import c08_tagvariants as TV
+from .. import c07_oracle as O7
 from .. import history
 from .. import symtrace as st
 from ..symtrace import Sym
@@ -30,7 +32,9 @@ THEOREMS = [_T + n for n in [
     "C08_tags_bridge", "C08_pair_score_is_class_probability", "C08_clip_pair_scores", "C08_classes_are_vocabulary_tags",
     # calls and histories (follow-up 3): a call as content, every step of every sequence of calls judged on its own
     "C08_history", "C08_evaluate_bridge", "C08_evaluate_congr", "C08_shared_class_table_not_history_free",
-    "C08_buffer_memo_not_history_free", "C08_positional_binding"]]
+    "C08_buffer_memo_not_history_free", "C08_positional_binding",
+    # wave 5: pairs without closed form are credited on the (now independent) measurement alone
+    "C08_measured_pairs"]]
 LEVEL_TEXT = ("Lean theorems over the model of evaluate_clip / sound_event_detection hold for all inputs: evaluated clips = "
               "predictions whose clip id is annotated, in order; every annotated and predicted sound event (with or without "
               "geometry) is in exactly one match; the filtered->original index map is the order-preserving injection; a pair "
@@ -41,7 +45,9 @@ LEVEL_TEXT = ("Lean theorems over the model of evaluate_clip / sound_event_detec
               "'paired only if the geometries overlap' is proved with overlap defined by end-point comparisons "
               "(C08_overlap_iff_affinity_pos, C08_geo_pairs_overlap). The same comparison, evaluated in Lean "
               "(judgePairs, C08_judge_sound) on the matches sound_event_detection really returned, judges every reported "
-              "pair. Tags travel as content (term with all its fields, value): the class indices are computed by the Lean "
+              "pair. For a pair of which one geometry has no closed form (points, lines, polygons with or without holes) the "
+              "model reports exactly the affinity measured outside it, and pairs only where that measurement is positive "
+              "(C08_measured_pairs); the measurement comes from an oracle that shares no code with the library. Tags travel as content (term with all its fields, value): the class indices are computed by the Lean "
               "model of the encoder (C19's `encode`, bridged to the first layer by C08_tags_bridge), and 'the score of a pair "
               "is the probability the prediction gives to the annotation's class' is proved in terms of tag equality only "
               "(C08_pair_score_is_class_probability: stored score of the last predicted tag equal to the annotation's first "
@@ -59,7 +65,11 @@ LEVEL_TEXT = ("Lean theorems over the model of evaluate_clip / sound_event_detec
 LEVEL_NOTE = ("Trusted: Lean kernel; scipy's assignment (only its pairs enter the model; contract ValidAssignment evaluated "
               "on every answer; which overlapping pairs are chosen is C07's optimality, not pinned here); GEOS on "
               "rectangles (contract BoxExact, embodied in the trace stub); for geometry types without closed form "
-              "(points, lines, polygons) the affinity is a monitored measurement with shapely, not a model value. "
+              "(points, lines, polygons - holes included) the affinity is not a model value but a measurement by "
+              "harness/c07_oracle.py, which imports nothing from soundevent: shapely shapes built from the coordinates (shell "
+              "and holes of every polygon; the buffering recipe of the C11 model for point / line types), intersection over "
+              "union, time extents when one side is time-only; compared within 2^-40, within 2^-20 where a GEOS-buffered "
+              "outline takes part. "
               "Unmodelled: binary64 rounding of the means (dyadic scores: clip score is one correctly rounded division; "
               "overall score within 2^-40) and of the affinity (compared within 2^-40); scikit-learn behind the run-level "
               "metrics (C09). evaluate_clip's loop itself is tied by generator-bounded correspondence. Histories: the "
@@ -70,7 +80,8 @@ LEVEL_NOTE = ("Trusted: Lean kernel; scipy's assignment (only its pairs enter th
 TECHNIQUE = ("Lean 4 proof over a two-layer model (matcher as parameter under a proved-sufficient contract; matcher inside "
              "the model around the solver's pairs); table and symbolic-trace obligations regenerated from the source; "
              "end-to-end and per-clip differential correspondence, exhaustive small scopes; Lean-side judge of every "
-             "reported pair by closed-form overlap; executable property monitor on the real results; sequences of "
+             "reported pair by closed-form overlap, pairs without closed form by an affinity oracle that shares no code "
+             "with the library; executable property monitor on the real results; sequences of "
              "calls in one process (reuse after in-place edits / model_copy / copy, other vocabularies, other buffers, "
              "poisoned and re-read results, argument snapshots) judged step by step by the pure model; failing inputs "
              "re-run in a new interpreter so that the first replay is self-contained")
@@ -94,7 +105,18 @@ RULE = ("sound_event_detection end to end (0-4 evaluated clips, 0-4 annotated an
         "(time stamps, points, lines, multi points / lines / polygons) at dyadic offsets around twice the buffers; sizes: clips "
         "with 17, 260 and 33 x 32 (>= 1024 pairs) sound events on a lattice with several frequency rows; direct calls of "
         "the matcher with eight buffer settings (keyword, positional, defaults) and of its sibling entry point "
-        "compute_affinity; histories (detection_history): 160 / 1600 "
+        "compute_affinity; Polygons and MultiPolygons with 1 and 2 holes (holes touching nothing; as first / second / "
+        "only part of a MultiPolygon, next to a plain or a holed second polygon) against a counterpart inside a hole, equal "
+        "to it, straddling its edge, covering it, covering the shell, over the material only, in the second hole, in the "
+        "second polygon or far away - the counterpart as box, Polygon, part of a MultiPolygon, ring-shaped Polygon, "
+        "TimeInterval, Point or LineString, holes on the annotated or the predicted side (402-clip sweep, random clips, "
+        "through sound_event_detection, evaluate_clip and direct matcher calls), every pair judged by an affinity that "
+        "is computed from the coordinates without the library; Tag / Term objects made in other ways, chosen independently "
+        "for vocabulary, annotated and predicted tags: instances of Tag subclasses (no field of their own, a further "
+        "field, the term as a field default), model_validate (term as dictionary / as object), model_copy (shallow, deep, "
+        "update of the value), Term objects new per tag / one per term / borrowed from another vocabulary tag with an "
+        "equal term, a Term subclass for all tags of a call (430-clip pairwise sweep on a scenario with two classes under "
+        "equal, separately built terms; 20-30 % of the random cases and of the histories); histories (detection_history): 160 / 1600 "
         "sequences of 3-5 calls in one process - half of them directed (x, a neighbour of x of one kind on the same live "
         "objects revised one way, x again: kind in {other vocabulary, moved / added / removed / re-tagged / geometry-less sound "
         "event, direct matcher / compute_affinity call with other buffers} x way in {in place, model_copy(update), deep model_copy(update), "
@@ -103,13 +125,20 @@ RULE = ("sound_event_detection end to end (0-4 evaluated clips, 0-4 annotated an
         "poisoned in place and earlier live results read again after later calls; "
         "non-trivial = a result with at least one match; distinct = distinct (operation, input)")
 TRUSTED = ["scipy.optimize.linear_sum_assignment behind match_geometries: contracts MatcherCover and ValidAssignment evaluated on every answer",
-           "shapely/GEOS: exact on rectangles (trace stub); measured directly for points, lines and polygons (monitored contract)",
+           "shapely/GEOS: exact on rectangles (trace stub); called directly by the harness on shapes built from the "
+           "coordinates for points, lines and polygons",
            "harness: the content of a tag (every field of its term, its value) is read from the fields of an object built "
            "like the ones handed to the code; class indices and expected pair scores come from the Lean model of the "
            "encoder, never from the library's encoder",
            "harness: the pairs of the assignment solver are read from a second call of the real matcher on new objects "
-           "(the solver's freedom; only positions, never affinities, enter the geometry layer); buffer_geometry / "
-           "geometry_to_shapely (C11 / C05) prepare the shapes of the measured contract for types without closed form",
+           "(the solver's freedom; only positions, never affinities, enter the geometry layer)",
+           "harness/c07_oracle.py (shared with C07, read only, no soundevent import): shapes and affinity of pairs without "
+           "closed form, from the coordinates; neither the library's conversion to shapely nor its buffering nor its "
+           "affinity is consulted for an expected value",
+           "harness/c08_tagvariants.py: a Tag / Term object made another way (subclass instance, model_validate, model_copy, "
+           "shared or borrowed Term object) is read back field by field and must carry the content of its descriptor before it "
+           "is handed to the code (else the plain object is used and the fact tallied); the expected class of a tag comes "
+           "from the Lean encoder model on that content",
            "triage: a failing input is run again by harness/c08_worker.py in a new interpreter and judged by the same "
            "monitor; this only orders the replays, it never removes a failure"]
 ASSUMPTIONS = ["clip ids pairwise distinct within the prediction list and within the annotation list",
@@ -123,7 +152,11 @@ NOT_COMPARED = ["run-level metrics and per-match metric lists (property C09)", "
                 "answer of a call must still be the answer for its content (the solver's pairs are taken from the same "
                 "content on new objects)",
                 "the library's own compute_affinity is no longer consulted as a second opinion on reported affinities "
-                "(closed form in Lean or direct measurement, within 2^-40)"]
+                "(closed form in Lean within 2^-40, or the independent measurement of harness/c07_oracle.py: 2^-40, and "
+                "2^-20 where the outline of a GEOS buffer takes part - that outline is not pinned by C08)",
+                "whether a term held in an instance of a Term *subclass* is the same term as a plain Term with equal fields "
+                "(pydantic's __eq__ says no today; C19's business): every generated call uses one Term class for all its tags, "
+                "while the class of the Tag objects varies freely"]
 
 
 # ---------------------------------------------------------------- geometry layer
@@ -173,39 +206,47 @@ def _buffers():
         return _DEFAULT_BUFFERS
 
 
-def _prepared(g, tb, fb):
-    """(type, shapely shape) of a geometry as the affinity computation prepares it — without affinity.py"""
-    from soundevent.geometry import buffer_geometry, geometry_to_shapely
-    obj = G._geometry(g)
-    if _gtype(g) in _BUFFERED:
-        obj = buffer_geometry(obj, time_buffer=tb, freq_buffer=fb)
-    return obj.type, geometry_to_shapely(obj)
+def _pair_tau(g1, g2):
+    """tolerance of a measured affinity: 2^-40, 2^-20 when a GEOS-buffered shape (point / line types) takes part
+    (the exact outline of such a buffer is not something C08 pins)"""
+    return O7.pair_tau(G.geom_json(g1), G.geom_json(g2))
 
 
 def measured_affinity(g1, g2, tb, fb):
-    """monitored contract for geometry types without closed form: intersection over union of the prepared
-    shapes measured with shapely directly (time extents when one side is time-only), as an exact rational of
-    the measured floats"""
+    """the geometric affinity of a pair without closed form, stated independently of the code under test
+    (HISTORIES.md section 5): `harness/c07_oracle.py` builds the shapely shapes from the *coordinates* (shell and
+    holes of every polygon, the C11 recipe for the buffered point / line types) and measures intersection over union
+    (time extents when one side is time-only).  Nothing of `soundevent` is involved: neither its conversion to
+    shapely nor its buffering nor its affinity.  Exact rational of the measured float."""
     key = (G.gkey(g1), G.gkey(g2), tb, fb)
     if key in _MEASURED:
         return _MEASURED[key]
-    t1, s1 = _prepared(g1, tb, fb)
-    t2, s2 = _prepared(g2, tb, fb)
-    F = Fraction
-    if t1 in _TIME or t2 in _TIME:
-        a0, _, a1, _ = (F(float(v)) for v in s1.bounds)
-        b0, _, b1, _ = (F(float(v)) for v in s2.bounds)
-        i = max(F(0), min(a1, b1) - max(a0, b0))
-        u = (a1 - a0) + (b1 - b0) - i
-        v = F(0) if u == 0 else i / u
-    else:
-        i, a, b = F(float(s1.intersection(s2).area)), F(float(s1.area)), F(float(s2.area))
-        u = a + b - i
-        v = F(0) if u == 0 else min(i / u, F(1))
+    v = Fraction(float(O7._geos_affinity(G.geom_json(g1), G.geom_json(g2), float(tb), float(fb))))
     if len(_MEASURED) > 20000:
         _MEASURED.clear()
     _MEASURED[key] = v
     return v
+
+
+def _aff_eq(impl, want, g1, g2):
+    """reported affinity against the expected one (a Fraction), under the tolerance of the pair"""
+    if impl in (None, "nan"):
+        return False
+    tau = _pair_tau(g1, g2)
+    if tau <= O7.TAU_TIGHT:
+        return G.num_eq(impl, rat(want), "tolerance")
+    return abs(frac(impl) - want) <= tau
+
+
+def _no_overlap(reported, want, g1, g2):
+    """a reported pair whose independent affinity is not positive: a violation, unless a GEOS-buffered outline takes
+    part and the reported affinity is itself below the tolerance of such a pair (a sliver of the buffer's outline)"""
+    if want > 0:
+        return False
+    tau = _pair_tau(g1, g2)
+    if tau > O7.TAU_TIGHT and reported not in (None, "nan") and abs(frac(reported)) <= tau:
+        return False
+    return True
 
 
 def _tagreq(inp):
@@ -259,9 +300,34 @@ def _compare_geo(inp, io, mo):
     if "raise" in io or "raise" in mo:
         a = {k: v for k, v in io.items() if k != "trace"}
         return None if a == mo else f"implementation {a} but model {mo}"
-    return G.evaluation_diff(io["val"], mo["val"], score_mode="tolerance", clip_score_mode="round-once", metrics=False,
-                             affinity_mode="tolerance",
-                             affinity_what="the geometric affinity (intersection over union) of the paired sound events")
+    d = G.evaluation_diff(io["val"], mo["val"], score_mode="tolerance", clip_score_mode="round-once", metrics=False,
+                          affinity=False)
+    return d or _affinity_diff(inp, io["val"], mo["val"])
+
+
+def _affinity_diff(inp, a, b):
+    """reported affinities against the model's (closed form, or the independent measurement it was handed), each pair
+    under its own tolerance; called when the two evaluations pair the same sound events"""
+    pred_by, ann_by = {}, {}
+    for c in inp["predictions"]:
+        pred_by.setdefault(c["clip"], c)
+    for c in inp["annotations"]:
+        ann_by.setdefault(c["clip"], c)
+    for ca, cb in zip(a["clips"], b["clips"]):
+        pe = (pred_by.get(ca["clip"]) or {}).get("events", [])
+        ae = (ann_by.get(ca["clip"]) or {}).get("events", [])
+        for x, y in zip(sorted(ca["matches"], key=G.match_key), sorted(cb["matches"], key=G.match_key)):
+            i, j = x["src"], x["tgt"]
+            ok = None
+            if isinstance(i, int) and isinstance(j, int) and i < len(pe) and j < len(ae) and pe[i]["geom"] is not None \
+                    and ae[j]["geom"] is not None and y["affinity"] not in (None, "nan"):
+                ok = _aff_eq(x["affinity"], frac(y["affinity"]), pe[i]["geom"], ae[j]["geom"])
+            if ok is None:
+                ok = G.num_eq(x["affinity"], y["affinity"], "tolerance")
+            if not ok:
+                return (f"match affinity is not the geometric affinity (intersection over union) of the paired sound "
+                        f"events: {G._fl(x['affinity'])} instead of {G._fl(y['affinity'])} (clip {ca['clip']} match {G.match_key(x)})")
+    return None
 
 
 def _gshow(g):
@@ -301,11 +367,11 @@ def _judge_clip(ctx, clip, pe, ae, matches):
                                                   "g2": G.geom_json(g2)})["affinity"])
         else:   # no closed form: the monitored contract
             want = measured_affinity(g1, g2, tb, fb)
-            ctx.tally("contract:measured-overlap")
-            if not want > 0:
-                return (f"paired sound events do not overlap: the prepared shapes of {_gtype(g1)} and {_gtype(g2)} have an "
-                        f"empty intersection (clip {clip} match {(i, j)})")
-        if not G.num_eq(x["affinity"], rat(want), "tolerance"):
+            ctx.tally("judge:independent-measurement")
+            if _no_overlap(x["affinity"], want, g1, g2):
+                return (f"paired sound events do not overlap: {_gtype(g1)} {_gshow(g1)} and {_gtype(g2)} {_gshow(g2)} have an "
+                        f"empty intersection (clip {clip} match {(i, j)}, reported affinity {G._fl(x['affinity'])})")
+        if not _aff_eq(x["affinity"], want, g1, g2):
             return (f"match affinity is not the geometric affinity of the pair: {G._fl(x['affinity'])} instead of "
                     f"{float(want)} (clip {clip} match {(i, j)})")
     if not out["ok"]:
@@ -351,7 +417,7 @@ def _canon_detection(inp, pos, ev):
 def _impl_detection(inp):
     """`sound_event_detection` end to end; with `inp["style"]` the arguments are built and passed in one of the
     other legitimate ways (harness/c08_live.py)"""
-    if inp.get("style"):
+    if inp.get("style") or inp.get("tagstyle"):
         args = L.build(inp)
         return _canon_detection(inp, args["pos"], L.call_detection(args))
     preds, anns, tags = G.build(inp)
@@ -514,9 +580,10 @@ def _impl_eval_clip(inp):
     D = importlib.import_module("soundevent.evaluation.tasks.sound_event_detection")
     from soundevent.evaluation.encoding import create_tag_encoder
     full = {"task": "sound_event_detection", "vocab": inp["vocab"], "tagpool": inp.get("tagpool"),
+            "tagstyle": inp.get("tagstyle"),
             "predictions": [{"clip": 0, "events": inp["preds"]}], "annotations": [{"clip": 0, "events": inp["anns"]}]}
     style = inp.get("style") or {}
-    if style:
+    if style or inp.get("tagstyle"):
         args = L.build(full, style)
         preds, anns, tags = args["preds"], args["anns"], args["tags"]
     else:
@@ -673,7 +740,11 @@ def _compare_match(inp, io, mo):
     if [_mkey(e) for e in a] != [_mkey(e) for e in b]:
         return f"the matcher pairs {[_mkey(e) for e in a]} instead of {[_mkey(e) for e in b]}"
     for x, y in zip(a, b):
-        if not G.num_eq(x[2], y[2], "tolerance"):
+        if x[0] is not None and x[1] is not None and x[0] < len(inp["src"]) and x[1] < len(inp["tgt"]) and y[2] not in (None, "nan"):
+            ok = _aff_eq(x[2], frac(y[2]), inp["src"][x[0]], inp["tgt"][x[1]])
+        else:
+            ok = G.num_eq(x[2], y[2], "tolerance")
+        if not ok:
             return (f"match affinity is not the geometric affinity of the pair under the buffers of the call: "
                     f"{G._fl(x[2])} instead of {G._fl(y[2])} (match {_mkey(x)})")
     return None
@@ -692,13 +763,15 @@ def _holds_match(ctx, inp, io):
         out = _model(ctx, "judge_pairs", {"tb": rat(Fraction(tb)), "pred_geoms": [G.geom_json(g) for g in inp["src"]],
                                          "ann_geoms": [G.geom_json(g) for g in inp["tgt"]],
                                          "matches": [[s, t] for s, t, _ in ms]})
+        reported = {(s_, t_): a_ for s_, t_, a_ in ms}
         for i, j, v in out["pairs"]:
             g1, g2 = inp["src"][i], inp["tgt"][j]
             if v == "disjoint":
                 return (f"paired geometries do not overlap under time_buffer={tb}: {_gtype(g1)} and {_gtype(g2)} "
                         f"(match {(i, j)})")
-            if v == "unknown" and not measured_affinity(g1, g2, tb, fb) > 0:
-                return f"paired geometries do not overlap: the prepared shapes have an empty intersection (match {(i, j)})"
+            if v == "unknown" and _no_overlap(reported.get((i, j)), measured_affinity(g1, g2, tb, fb), g1, g2):
+                return (f"paired geometries do not overlap: {_gtype(g1)} {_gshow(g1)} and {_gtype(g2)} {_gshow(g2)} have an "
+                        f"empty intersection (match {(i, j)})")
     except leanio.InfraError:
         raise
     except Exception as e:  # noqa: BLE001
@@ -1429,6 +1502,7 @@ def gen_histories(ctx, n):
             if all_unlabelled(x):
                 continue
             _styled(ctx, x, 0.4, history=True)
+            _tagstyled(ctx, x, 0.3)
         base.append(x)
     hs = _directed_histories(ctx, base, n // 2)
     hs += history.sequences(rng, base, n - len(hs), variants=_h_variants, reuse_hows=H_REUSE, poison=True, length=(3, 5))
@@ -1437,6 +1511,243 @@ def gen_histories(ctx, n):
             ctx.tally("history:" + ("match" if _is_match(st["inp"]) else "evaluate") + ":" + (st.get("reuse") or "fresh")
                       + ("+poison" if st.get("poison") else ""))
     return hs
+
+
+# ---------------------------------------------------------------- polygons with holes (siblings: Polygon / MultiPolygon)
+def _ring(t0, f0, t1, f1, cw=False):
+    r = [[rat(t0), rat(f0)], [rat(t1), rat(f0)], [rat(t1), rat(f1)], [rat(t0), rat(f1)], [rat(t0), rat(f0)]]
+    return r[::-1] if cw else r
+
+
+def _poly(rect, holes=(), cw=True):
+    return [_ring(*rect)] + [_ring(*h, cw=cw) for h in holes]
+
+
+_HOLE_KINDS = ("polygon-1", "polygon-2", "multi-1+patch", "multi-2+holed-patch", "multi-single-1")
+_HOLE_PLACES = ("inside-hole", "equals-hole", "straddles-hole", "covers-hole", "covers-shell", "in-material", "in-second-hole",
+                "in-patch", "far")
+_HOLE_COUNTER = ("BoundingBox", "Polygon", "MultiPolygon", "ring", "TimeInterval", "Point", "LineString")
+
+
+def _holed(kind, t0, f0, cw=True):
+    """a frame (shell 4 s x 4000 Hz at (t0, f0)) with one or two rectangular holes that touch nothing, as a Polygon
+    or inside a MultiPolygon (with a second polygon 2 s further right, itself with or without a hole);
+    returns (geometry, holes of the frame, rectangle of the patch or None)"""
+    F = Fraction
+    t0, f0 = F(t0), F(f0)
+    shell = (t0, f0, t0 + 4, f0 + 4000)
+    one = [(t0 + 1, f0 + 1000, t0 + 3, f0 + 3000)]
+    two = [(t0 + F(1, 2), f0 + 500, t0 + F(3, 2), f0 + 3500), (t0 + F(5, 2), f0 + 500, t0 + F(7, 2), f0 + 3500)]
+    patch = (t0 + 6, f0, t0 + 8, f0 + 2000)
+    if kind == "polygon-1":
+        return {"type": "Polygon", "coordinates": _poly(shell, one, cw)}, one, None
+    if kind == "polygon-2":
+        return {"type": "Polygon", "coordinates": _poly(shell, two, cw)}, two, None
+    if kind == "multi-1+patch":
+        return {"type": "MultiPolygon", "coordinates": [_poly(shell, one, cw), _poly(patch)]}, one, patch
+    if kind == "multi-2+holed-patch":
+        ph = [(t0 + F(13, 2), f0 + 500, t0 + F(15, 2), f0 + 1500)]
+        return {"type": "MultiPolygon", "coordinates": [_poly(patch, ph, cw), _poly(shell, two, cw)]}, two, patch
+    return {"type": "MultiPolygon", "coordinates": [_poly(shell, one, cw)]}, one, None
+
+
+def _placed(place, t0, f0, holes, patch):
+    """the rectangle of the counterpart, relative to the frame at (t0, f0)"""
+    F = Fraction
+    t0, f0 = F(t0), F(f0)
+    h = holes[0]
+    if place == "inside-hole":
+        return (h[0] + F(1, 4), h[1] + 250, h[2] - F(1, 4), h[3] - 250)
+    if place == "equals-hole":
+        return h
+    if place == "straddles-hole":                                  # half over the frame's material, half over the hole
+        return (h[0] - F(1, 4), h[1] + 250, h[0] + F(1, 4), h[3] - 250)
+    if place == "covers-hole":
+        return (h[0] - F(1, 4), h[1] - 250, h[2] + F(1, 4), h[3] + 250)
+    if place == "covers-shell":
+        return (t0, f0, t0 + 4, f0 + 4000)
+    if place == "in-material":
+        return (t0 + F(1, 8), f0 + 100, t0 + F(3, 8), f0 + 3900)
+    if place == "in-second-hole":
+        h2 = holes[-1]
+        return (h2[0] + F(1, 8), h2[1] + 125, h2[2] - F(1, 8), h2[3] - 125)
+    if place == "in-patch":
+        q = patch or (t0 + 6, f0, t0 + 8, f0 + 2000)
+        return (q[0], q[1], q[0] + F(1, 2), q[1] + 400)
+    return (t0 + 20, f0, t0 + 21, f0 + 1000)
+
+
+def _counterpart(ctype, r):
+    """a geometry of the given type over the rectangle `r` (siblings of the box: the same region as a Polygon, as
+    one part of a MultiPolygon, as a ring-shaped Polygon, and the time-only / buffered types placed in it)"""
+    F = Fraction
+    t0, f0, t1, f1 = r
+    if ctype == "BoundingBox":
+        return [rat(t0), rat(f0), rat(t1), rat(f1)]
+    if ctype == "Polygon":
+        return {"type": "Polygon", "coordinates": _poly(r)}
+    if ctype == "MultiPolygon":
+        return {"type": "MultiPolygon", "coordinates": [_poly((t0 + 40, f0, t0 + 41, f0 + 100)), _poly(r)]}
+    if ctype == "ring":
+        w, hh = (t1 - t0) / 4, (f1 - f0) / 4
+        return {"type": "Polygon", "coordinates": _poly(r, [(t0 + w, f0 + hh, t1 - w, f1 - hh)])}
+    if ctype == "TimeInterval":
+        return {"type": "TimeInterval", "coordinates": [rat(t0), rat(t1)]}
+    if ctype == "Point":
+        return {"type": "Point", "coordinates": [rat((t0 + t1) / 2), rat((f0 + f1) / 2)]}
+    return {"type": "LineString", "coordinates": [[rat(t0 + (t1 - t0) / 4), rat((f0 + f1) / 2)], [rat(t1 - (t1 - t0) / 4), rat((f0 + f1) / 2)]]}
+
+
+def _hole_clip(kind, place, ctype, holed_side, t0=1, f0=1000, cw=True, extra=False, vocab=(0, 1), ptags=None, atags=None,
+               clip=3):
+    geom, holes, patch = _holed(kind, t0, f0, cw)
+    other = _counterpart(ctype, _placed(place, t0, f0, holes, patch))
+    pg, ag = (geom, other) if holed_side == "pred" else (other, geom)
+    pe = [{"id": 1, "geom": pg, "tags": ptags if ptags is not None else [[0, "3/4"], [1, "1/8"]]}]
+    ae = [{"id": 2, "geom": ag, "tags": atags if atags is not None else [0]}]
+    if extra:      # a second pair next to it, so that the clip always has a genuine match as well
+        far = (Fraction(t0) + 30, Fraction(f0), Fraction(t0) + 31, Fraction(f0) + 1000)
+        pe.append({"id": 3, "geom": _counterpart("BoundingBox", far), "tags": [[1, "1/2"]]})
+        ae.append({"id": 4, "geom": _counterpart("Polygon", far), "tags": [1]})
+    return {"task": "sound_event_detection", "vocab": list(vocab), "predictions": [{"clip": clip, "events": pe}],
+            "annotations": [{"clip": clip, "events": ae}]}
+
+
+def _hole_sweep(full=False):
+    """every (holed shape, placement of the counterpart, counterpart type, side that carries the holes)"""
+    for kind in _HOLE_KINDS:
+        for place in _HOLE_PLACES:
+            if place == "in-second-hole" and "-2" not in kind:
+                continue
+            if place == "in-patch" and "patch" not in kind:
+                continue
+            for ctype in _HOLE_COUNTER:
+                if not full and ctype in ("Point", "LineString", "TimeInterval") and place not in ("inside-hole", "straddles-hole", "far"):
+                    continue
+                for side in ("ann", "pred"):
+                    yield _hole_clip(kind, place, ctype, side, cw=(side == "ann"), extra=(place == "inside-hole" and ctype == "BoundingBox"))
+
+
+def gen_holes(rng):
+    """one or two clips with holed Polygons / MultiPolygons at random dyadic positions and one to three counterparts
+    around their holes, on either side"""
+    def make(vocab):
+        preds, anns, nid = [], [], 0
+        for c in rng.sample(range(40), rng.choice([1, 1, 2])):
+            pe, ae = [], []
+            for k in range(rng.choice([1, 1, 2])):
+                t0, f0 = Fraction(rng.randint(0, 12), 2) + 12 * k, rng.choice([0, 500, 1000, 4096])
+                geom, holes, patch = _holed(rng.choice(_HOLE_KINDS), t0, f0, cw=rng.random() < 0.5)
+                side = rng.choice(["ann", "pred"])
+                nid += 1
+                (ae if side == "ann" else pe).append({"id": nid, "geom": geom, "tags": None})
+                for _ in range(rng.choice([1, 1, 2, 3])):
+                    place = rng.choice(_HOLE_PLACES)
+                    nid += 1
+                    (pe if side == "ann" else ae).append(
+                        {"id": nid, "geom": _counterpart(rng.choice(_HOLE_COUNTER), _placed(place, t0, f0, holes, patch)), "tags": None})
+            for e in pe:
+                e["tags"] = G.single_label_scores(rng, vocab)
+            for e in ae:
+                e["tags"] = G.true_tags(rng, vocab)
+            rng.shuffle(pe)
+            preds.append({"clip": c, "events": pe})
+            anns.append({"clip": c, "events": ae})
+        return {"task": "sound_event_detection", "vocab": vocab, "predictions": preds, "annotations": anns}
+    return _pooled(rng, make)
+
+
+def _stage_holes(ctx, n):
+    sweep = list(_hole_sweep(ctx.thorough()))
+    ctx.run_cases(OPS["detection_geo"], sweep)
+    ctx.exhaustive["polygons with holes"] = (
+        f"{len(sweep)} clips: a frame with 1 / 2 holes as Polygon, inside a MultiPolygon (first or second part, next to a plain "
+        "or a holed second polygon) or as a one-part MultiPolygon x a counterpart inside a hole / equal to it / straddling "
+        "its edge / covering it / covering the shell / over the material only / in the second hole / in the second polygon / "
+        "far away x counterpart as box, Polygon, MultiPolygon part, ring-shaped Polygon, TimeInterval, Point, LineString x "
+        "holes on the annotated or on the predicted side")
+    cases = [_styled(ctx, gen_holes(ctx.rng), 0.25) for _ in range(n)]
+    for c in cases:
+        for side in ("predictions", "annotations"):
+            for pc in c[side]:
+                for e in pc["events"]:
+                    if isinstance(e["geom"], dict) and e["geom"]["type"] in ("Polygon", "MultiPolygon"):
+                        nh = sum(len(p) - 1 for p in ([e["geom"]["coordinates"]] if e["geom"]["type"] == "Polygon" else e["geom"]["coordinates"]))
+                        ctx.tally(f"holes:{side[:4]}:{e['geom']['type']}:holes={min(nh, 3)}")
+    ctx.run_cases(OPS["detection_geo"], cases)
+    # the same shapes through the first layer / evaluate_clip alone and through direct calls of the matcher
+    clips = [{"vocab": c["vocab"], "preds": c["predictions"][0]["events"], "anns": c["annotations"][0]["events"],
+              **({"tagpool": c["tagpool"]} if c.get("tagpool") is not None else {})} for c in cases[: max(20, n // 4)]]
+    ctx.run_cases(OPS["eval_clip"], clips + [{"vocab": c["vocab"], "preds": c["predictions"][0]["events"],
+                                             "anns": c["annotations"][0]["events"]} for c in sweep[::7]])
+    ms = [m for m in (_match_of(ctx.rng, c) for c in cases[: max(20, n // 3)]) if m is not None]
+    ctx.run_cases(OPS["match_call"], ms + [m for m in (_match_of(ctx.rng, c, buffers=(None, None)) for c in sweep[::5]) if m is not None])
+
+
+# ---------------------------------------------------------------- construction variants of Tag / Term objects
+_VARIANT_POOL = [dict(d) for d in TP.TAXA]
+
+
+def _variant_clip(tagstyle):
+    """the seeded scenario: vocabulary GBIF/Turdus, GBIF/Parus, eBird/Turdus (the first two carry equal terms, built
+    separately unless the style shares them); an annotated GBIF/Parus box and an overlapping prediction that gives it
+    3/4 (and 1/8 to GBIF/Turdus); a second annotation outside the vocabulary (uri differs) under a prediction"""
+    return {"vocab": [0, 1, 2], "tagpool": _VARIANT_POOL, "tagstyle": tagstyle,
+            "preds": [{"id": 0, "geom": _BOXES["B"], "tags": [[1, "3/4"], [0, "1/8"]]},
+                      {"id": 1, "geom": _BOXES["D"], "tags": [[2, "1/2"], [3, "1/4"], [1, "1/8"]]}],
+            "anns": [{"id": 10, "geom": _BOXES["A"], "tags": [1]},
+                     {"id": 11, "geom": _BOXES["D"], "tags": [3, 2]}]}
+
+
+def _variant_sweep():
+    """forms pairwise over (vocabulary, annotated, predicted) tags - each tag is looked up on its own, so pairs of
+    roles cover the interplay - then the sources of the Term objects x Term classes under a few forms"""
+    seen = set()
+    forms = TV.FORMS
+    for a in forms:
+        for b in forms:
+            for st in ({"vocab": a, "ann": b}, {"vocab": a, "pred": b}, {"ann": a, "pred": b}):
+                st = TV.normalise(st)
+                k = core_jkey(st)
+                if k not in seen:
+                    seen.add(k)
+                    yield _variant_clip(st)
+    for vm in ("fresh", "shared"):
+        for am in TV.TERM_MODES:
+            for pm in TV.TERM_MODES:
+                for tc in TV.TERM_CLASSES:
+                    for fv, fa, fp in (("plain", "plain", "plain"), ("sub", "subx", "plain"), ("plain", "copy", "subdef"),
+                                       ("validate", "update", "validate_obj")):
+                        st = TV.normalise({"vocab": fv, "ann": fa, "pred": fp, "vocab_term": vm, "ann_term": am, "pred_term": pm,
+                                           "termcls": tc})
+                        k = core_jkey(st)
+                        if k not in seen:
+                            seen.add(k)
+                            yield _variant_clip(st)
+
+
+def _tagstyled(ctx, inp, p=0.3):
+    if ctx.rng.random() < p:
+        st = TV.gen_style(ctx.rng)
+        if st:
+            inp["tagstyle"] = st
+            for k in TV.tallies(st):
+                ctx.tally(k)
+    return inp
+
+
+def _stage_tag_variants(ctx, n):
+    sweep = list(_variant_sweep())
+    ctx.run_cases(OPS["eval_clip"], sweep)
+    ctx.exhaustive["tag construction variants"] = (
+        f"{len(sweep)} clips: one scenario (two vocabulary classes with equal, separately built terms; a pair annotated with "
+        "the second; an annotation outside the vocabulary) x how the Tag objects are made (" + ", ".join(TV.FORMS) + ") "
+        "pairwise over vocabulary / annotated / predicted tags x where the Term objects come from (new, one per term, the "
+        "Term object of another vocabulary tag) x Term class (plain, subclass, subclass with a field)")
+    cases = [_tagstyled(ctx, _styled(ctx, gen_detection(ctx.rng), 0.2), 1.0) for _ in range(n)]
+    ctx.run_cases(OPS["detection"], cases)
+    for k, v in sorted(TV.FALLBACKS.items()):
+        ctx.tally("tagstyle:content-not-preserved:" + k, v)
 
 
 # ---------------------------------------------------------------- known findings
@@ -1453,7 +1764,7 @@ FINDING_MATCHERS = {"detection_no_labelled_truth": _f_no_labelled_truth}
 
 # ---------------------------------------------------------------- run
 def _stage_detection(ctx, n):
-    cases = [_styled(ctx, gen_detection(ctx.rng)) for _ in range(n)]
+    cases = [_tagstyled(ctx, _styled(ctx, gen_detection(ctx.rng))) for _ in range(n)]
     for c in cases:
         _tag_tallies(ctx, c)
         ctx.tally(f"detection:clips={len(c['predictions'])}/{len(c['annotations'])}")
@@ -1470,7 +1781,7 @@ def _stage_clips(ctx, n):
                                        "{none, A, half-overlapping B, touching C, far D, diagonal E}, over the legacy tags "
                                        "and over two classes that differ only in the term's name plus a near miss "
                                        "(other uri) outside the vocabulary")
-    cases = [_styled(ctx, gen_clip(ctx.rng)) for _ in range(n)]
+    cases = [_tagstyled(ctx, _styled(ctx, gen_clip(ctx.rng))) for _ in range(n)]
     for c in cases:
         _tag_tallies(ctx, {"tagpool": c.get("tagpool"), "vocab": c["vocab"],
                            "predictions": [{"events": c["preds"]}], "annotations": [{"events": c["anns"]}]})
@@ -1478,7 +1789,7 @@ def _stage_clips(ctx, n):
 
 
 def _stage_geo(ctx, n):
-    cases = [_styled(ctx, gen_geo(ctx.rng)) for _ in range(n)]
+    cases = [_tagstyled(ctx, _styled(ctx, gen_geo(ctx.rng)), 0.2) for _ in range(n)]
     for c in cases:
         for side in ("predictions", "annotations"):
             for pc in c[side]:
@@ -1925,6 +2236,8 @@ def run(ctx):
     ctx.stage("decimal-grids", _stage_decimal, ctx, ctx.budget(300, 4000))
     ctx.stage("sizes", _stage_sizes, ctx)
     ctx.stage("matcher-calls", _stage_match, ctx, ctx.budget(250, 3000))
+    ctx.stage("holes", _stage_holes, ctx, ctx.budget(150, 2000))
+    ctx.stage("tag-variants", _stage_tag_variants, ctx, ctx.budget(150, 2000))
     # last: direct matcher calls with other buffers inside histories must not colour the plain cases above
     ctx.stage("histories", _stage_histories, ctx, ctx.budget(160, 1600))
     ctx.stage("triage", _triage, ctx)
@@ -1938,5 +2251,7 @@ def search(ctx, failures):
     ctx.run_cases(OPS["eval_clip"], list(_decimal_sweep(10, 10)))
     ctx.run_cases(OPS["detection_geo"], [gen_decimal(ctx.rng) for _ in range(300)])
     ctx.run_cases(OPS["match_call"], [gen_match(ctx.rng) for _ in range(200)])
+    ctx.run_cases(OPS["detection_geo"], list(_hole_sweep()) + [gen_holes(ctx.rng) for _ in range(100)])
+    ctx.run_cases(OPS["eval_clip"], list(_variant_sweep()))
     ctx.run_cases(OPS["detection_history"], gen_histories(ctx, 120))
     ctx.stage("triage", _triage, ctx)
